@@ -2,6 +2,7 @@ package main
 
 import (
 	"fmt"
+	"strings"
 	"go/ast"
 	"go/token"
 	"go/types"
@@ -28,6 +29,7 @@ func (e *Eng) branch(st *State, cond string) *State {
 }
 
 func (e *Eng) execStmt(st *State, s ast.Stmt) *State {
+	e.curPos = s.Pos()
 	switch s := s.(type) {
 	case *ast.ExprStmt:
 		e.eval(st, s.X)
@@ -470,7 +472,12 @@ func (e *Eng) assignedVars(info *types.Info, n ast.Node) (map[types.Object]bool,
 					}
 					if id, ok := b.(*ast.Ident); ok {
 						if o := info.ObjectOf(id); o != nil {
-							vars[o] = true
+							// writing through a map, slice or pointer does not change the variable itself
+							switch o.Type().Underlying().(type) {
+							case *types.Map, *types.Slice, *types.Pointer:
+							default:
+								vars[o] = true
+							}
 						}
 					}
 				}
@@ -529,6 +536,108 @@ func (e *Eng) ghostsAssignedIn(n ast.Node) map[types.Object]bool {
 	return out
 }
 
+// loopFrame computes which heap arrays a loop body may write: (entries, false) when every write is a field
+// write or a call with a declared frame; (nil, true) when the whole heap must be forgotten.
+func (e *Eng) loopFrame(n ast.Node) ([]string, bool) {
+	var entries []string
+	full := false
+	addLHS := func(l ast.Expr) {
+		switch x := ast.Unparen(l).(type) {
+		case *ast.Ident:
+		case *ast.SelectorExpr:
+			sel := e.info.Selections[x]
+			if sel == nil {
+				return // qualified package variable
+			}
+			// only pointer-based field writes touch the heap; struct values in variables do not
+			bt := e.info.TypeOf(x.X)
+			if _, isPtr := bt.Underlying().(*types.Pointer); !isPtr {
+				// may still be a nested selector on a pointer (a.b.c = v): be conservative
+				if _, isId := ast.Unparen(x.X).(*ast.Ident); !isId {
+					full = true
+				}
+				return
+			}
+			rt := sel.Recv()
+			if p, ok := rt.Underlying().(*types.Pointer); ok {
+				rt = p.Elem()
+			}
+			tn := types.TypeString(rt, func(p *types.Package) string { return p.Name() })
+			if i := strings.LastIndex(tn, "."); i >= 0 {
+				tn = tn[i+1:]
+			}
+			entries = append(entries, tn+"."+x.Sel.Name)
+		case *ast.IndexExpr:
+			switch e.info.TypeOf(x.X).Underlying().(type) {
+			case *types.Map:
+				entries = append(entries, "maps")
+			default:
+				entries = append(entries, "elems")
+			}
+		default:
+			full = true
+		}
+	}
+	ast.Inspect(n, func(x ast.Node) bool {
+		switch x := x.(type) {
+		case *ast.AssignStmt:
+			for _, l := range x.Lhs {
+				addLHS(l)
+			}
+		case *ast.IncDecStmt:
+			addLHS(x.X)
+		case *ast.GoStmt, *ast.DeferStmt:
+			full = true
+		case *ast.CallExpr:
+			if e.callIsPure(x) {
+				return true
+			}
+			fun := ast.Unparen(x.Fun)
+			if id, ok := fun.(*ast.Ident); ok {
+				if _, isB := e.info.ObjectOf(id).(*types.Builtin); isB {
+					switch id.Name {
+					case "append", "copy":
+						entries = append(entries, "elems")
+					case "delete", "clear":
+						entries = append(entries, "maps")
+					default:
+						full = true
+					}
+					return true
+				}
+			}
+			key, sig, _ := calleeKey(e.info, x)
+			if sig == nil {
+				full = true
+				return true
+			}
+			con := e.contracts.ByKey[key]
+			if con != nil && con.HasFrame {
+				entries = append(entries, con.Modifies...)
+			} else {
+				full = true
+			}
+		}
+		return true
+	})
+	if full {
+		return nil, true
+	}
+	return entries, false
+}
+
+func (e *Eng) havocLoopHeap(head *State, body ast.Node, any bool) {
+	if !any {
+		return
+	}
+	entries, full := e.loopFrame(body)
+	if full {
+		e.havocHeap(head)
+		return
+	}
+	e.havocFrame(head, entries)
+}
+
 // havocCounters makes the call counters of every callee called inside body unknown (but not smaller).
 func (e *Eng) havocCounters(st *State, body ast.Node) {
 	ast.Inspect(body, func(n ast.Node) bool {
@@ -578,16 +687,55 @@ func (e *Eng) loopInvs() []*SExpr {
 
 func (e *Eng) specEnvFromState(st *State) map[string]*Val {
 	env := map[string]*Val{}
+	best := map[string]types.Object{}
 	for o, v := range st.vars {
-		env[o.Name()] = v
+		name := o.Name()
+		if cur, ok := best[name]; ok {
+			// several variables with this name: keep the one whose scope contains the current position,
+			// innermost first; fall back to the most recently declared
+			if !e.prefer(o, cur) {
+				continue
+			}
+		}
+		best[name] = o
+		env[name] = v
 	}
 	return env
+}
+
+func (e *Eng) inScope(o types.Object) bool {
+	if o.Parent() == nil || !e.curPos.IsValid() {
+		return true
+	}
+	return o.Parent().Contains(e.curPos) && o.Pos() <= e.curPos
+}
+
+func (e *Eng) prefer(a, b types.Object) bool {
+	ia, ib := e.inScope(a), e.inScope(b)
+	if ia != ib {
+		return ia
+	}
+	return a.Pos() > b.Pos()
 }
 
 func (e *Eng) checkInvs(st *State, invs []*SExpr, ord int, when string, pos token.Pos) {
 	for i, inv := range invs {
 		g := e.evalSpec(st, inv, e.specEnvFromState(st), e.oldEnv)
 		e.oblige(st, "invariant", fmt.Sprintf("loop%d#%d %s", ord, i+1, when), g.T, pos)
+	}
+}
+
+// checkSteps checks `loop N: step E` clauses at a back edge; prev(x) in E denotes x at the loop head.
+func (e *Eng) checkSteps(head, back *State, ord int, pos token.Pos) {
+	if e.con == nil {
+		return
+	}
+	for i, sx := range e.con.Steps[ord] {
+		saved := e.prevState
+		e.prevState = head
+		g := e.evalSpec(back, sx, e.specEnvFromState(back), e.oldEnv)
+		e.prevState = saved
+		e.oblige(back, "step", fmt.Sprintf("loop%d#%d", ord, i+1), g.T, pos)
 	}
 }
 
@@ -608,9 +756,7 @@ func (e *Eng) execFor(st *State, s *ast.ForStmt) *State {
 	mod, heap := e.assignedVars(e.info, s)
 	head := st.clone()
 	e.havocVars(head, mod, s)
-	if heap {
-		e.havocHeap(head)
-	}
+	e.havocLoopHeap(head, s, heap)
 	// new path symbol for arbitrary iteration
 	hp := e.declare(e.fresh("loophead"), "Bool")
 	head.path = hp
@@ -629,6 +775,7 @@ func (e *Eng) execFor(st *State, s *ast.ForStmt) *State {
 			back = e.execStmt(back, s.Post)
 		}
 		e.checkInvs(back, invs, ord, "preserved", s.Pos())
+		e.checkSteps(head, back, ord, s.Pos())
 	}
 	exit := e.branch(head, not(cond))
 	outs := append(e.takeExits(nex, ExitBreak, ""), exit)
@@ -693,9 +840,7 @@ func (e *Eng) execRange(st *State, s *ast.RangeStmt) *State {
 	mod, heap := e.assignedVars(e.info, s.Body)
 	head := st.clone()
 	e.havocVars(head, mod, s.Body)
-	if heap {
-		e.havocHeap(head)
-	}
+	e.havocLoopHeap(head, s.Body, heap)
 	iv := e.freshVal(fmt.Sprintf("i%d", ord), types.Typ[types.Int])
 	head.vars[idxObj] = iv
 	hp := e.declare(e.fresh("loophead"), "Bool")
@@ -720,6 +865,7 @@ func (e *Eng) execRange(st *State, s *ast.RangeStmt) *State {
 		}
 		back.vars[idxObj] = scalar(fmt.Sprintf("(+ %s %s)", iv.T, step), "Int", types.Typ[types.Int])
 		e.checkInvs(back, invs, ord, fmt.Sprintf("preserved/back-edge%d", bi+1), s.Pos())
+		e.checkSteps(head, back, ord, s.Pos())
 	}
 	exit := e.branch(head, not(cond))
 	outs := append(e.takeExits(nex, ExitBreak, ""), exit)
